@@ -123,6 +123,28 @@ VFindN(e) ==
   ELSE IF Has(e.r.res, "panic") \/ Has(e.r.full, "panic") THEN {"panic"}
   ELSE FindTags(vZone, e.a, e.a.ns, e.r.full) \cup FindNTags(vBuf, e.a.n, e.r)
 
+\* ---- C05: localtime then search recovers the instant (whatever the zone's clock is there, specified or not) ----
+DtFields(dt) == [y |-> dt.y, mo |-> dt.mo, d |-> dt.d, h |-> dt.h, mi |-> dt.mi, s |-> dt.s]
+VRoundTrip(e) ==
+  LET u == WToCDS(e.a.u) ns == e.a.ns lt == Localtime(vZone, u, ns) r == e.r IN
+  IF Has(r, "panic") THEN {"panic"} ELSE IF Has(r, "arg") THEN {"generator-error"}
+  ELSE IF Has(r, "err") /\ r.stage = "localtime" THEN Judge(r, lt)
+  ELSE LET dt == IF Has(r, "ok") THEN r.ok.dt ELSE r.dt
+           f == DtFields(dt)
+           risky == FindRisky(vZone, f, UnixOf(f.y, f.mo, f.d, f.h, f.mi, f.s))
+       IN (IF dt \in lt.ok THEN {} ELSE IF lt.ok = {} THEN {"accepted-but-must-fail"} ELSE {"wrong-value"})
+          \cup (IF DtInv(dt) THEN {} ELSE {"C14-dtinv"})
+          \cup (IF Has(r, "err") THEN (IF r.err = "OutOfRange" /\ risky THEN {} ELSE {"C05-search-failed"})
+                ELSE IF risky THEN {}
+                ELSE IF r.ok.hits = 0 THEN {"C05-roundtrip-instant-not-recovered"}
+                ELSE IF r.ok.hits > 1 THEN {"C05-roundtrip-instant-twice"} ELSE {})
+\* the same through the algorithm layer: the as-implemented number of hits
+AlgoHits(z, u, ns) ==
+  LET a == ATypeAt(z, u) IN
+  IF ~Has(a, "ok") THEN -1
+  ELSE LET dt == DtRec(u, ns, a.ok) list == AFind(z, DtFields(dt), ns) IN
+       Cardinality({i \in 1..Len(list) : list[i][1] = "N" /\ list[i][2].u = dt.u /\ list[i][2].off = a.ok.off /\ list[i][2].dst = a.ok.dst /\ list[i][2].des = a.ok.des})
+
 \* ---- C18 ----
 OffType(off) == [off |-> off, dst |-> 0, des |-> <<>>]
 \* the local time type of a rendering event: offset alone, or with the DST flag and designation the event names (they must not matter)
@@ -234,6 +256,10 @@ VsAlgo(e) ==
   IF Has(e.r, "panic") \/ Has(e.r, "arg") THEN "NoCmp"
   ELSE CASE e.op = "find" -> FindVsAlgo(vZone, e.a, e.a.ns, e.r)
          [] e.op = "findn" -> IF Has(e.r, "full") /\ ~Has(e.r.full, "panic") THEN FindVsAlgo(vZone, e.a, e.a.ns, e.r.full) ELSE "NoCmp"
+         [] e.op = "roundtrip" ->
+              IF ~Has(e.r, "ok") \/ NearI64Edge(vZone, WToCDS(e.a.u)) THEN "NoCmp"
+              ELSE IF FindRisky(vZone, DtFields(e.r.ok.dt), UnixOf(e.r.ok.dt.y, e.r.ok.dt.mo, e.r.ok.dt.d, e.r.ok.dt.h, e.r.ok.dt.mi, e.r.ok.dt.s)) THEN "NoCmp"
+              ELSE IF AlgoHits(vZone, WToCDS(e.a.u), e.a.ns) = e.r.ok.hits THEN "Same" ELSE "Differs"
          [] e.op = "lookup" -> TypeVsAlgo(vZone, WToCDS(e.a.u), e.r)
          [] e.op = "localtime" -> DtVsAlgo(vZone, WToCDS(e.a.u), e.a.ns, e.r, Ident)
          [] e.op = "project" -> IF Has(e.r, "err") /\ e.r.err = "Construct" THEN "NoCmp" ELSE DtVsAlgo(vZone, WToCDS(e.a.t), e.a.ns, e.r, DstOf)
@@ -274,6 +300,7 @@ Verdict(e) ==
     [] e.op = "ruleday" -> VRuleDay(e)
     [] e.op = "rule" -> VRule(e)
     [] e.op = "lookup" -> VLookup(e)
+    [] e.op = "roundtrip" -> VRoundTrip(e)
     [] e.op = "find" -> VFind(e)
     [] e.op = "findn" -> VFindN(e)
     [] OTHER -> {"unknown-op"}
